@@ -351,7 +351,11 @@ def parse_blocks(text):
     return blocks
 
 
-def run_cases(binary, lines, shards=None, timeout=1800, restarts=4):
+DEFAULT_CASE_TIMEOUT = {"quick": 240, "thorough": 3600}
+CURRENT_TIER = "quick"
+
+
+def run_cases(binary, lines, shards=None, timeout=None, restarts=None):
     """lines: list of 'id cmd args'. Returns dict id -> list of output lines.
 
     A shard whose process dies or gives no answer within `timeout` seconds is restarted after
@@ -359,6 +363,10 @@ def run_cases(binary, lines, shards=None, timeout=1800, restarts=4):
     are marked NOT-RUN."""
     if not lines:
         return {}
+    if timeout is None:
+        timeout = DEFAULT_CASE_TIMEOUT.get(CURRENT_TIER, 240)
+    if restarts is None:
+        restarts = 1 if CURRENT_TIER == "quick" else 4
     shards = shards or min(NPROC, max(1, len(lines) // 200))
     chunks = [lines[i::shards] for i in range(shards)]
     import threading
